@@ -355,7 +355,9 @@ def _grep_text(pattern: patterns.Pattern, text: str, color: bool) -> typ.Iterabl
 
         line_idx   = text[:match_start].count("\n")
         line_start = text.rfind("\n", 0, match_start) + 1
-        line_end   = text.find("\n", match_end, -1)
+        line_end   = text.find("\n", match_end)
+        if line_end < 0:
+            line_end = len(text)
         if color:
             matched_line = (
                 text[line_start:match_start]
